@@ -345,6 +345,126 @@ func c11Drive(args []string) int {
 	sigOf := func(name, val string, depth int, prevSibs int) string {
 		return fmt.Sprintf("%s|%s|d%d|s%d", name, val, depth, prevSibs)
 	}
+	compareDoc := func(idrDoc *idr.Node, xdoc *xmlquery.Node, text string, nexpr int) {
+			// context nodes: the document and a few inner elements (selected by the same expression on both sides)
+			ctxExprs := []string{".", "/root/*[1]", "/root/*[2]", "//b[1]", "//a[last()]"}
+			for xi := 0; xi < nexpr; xi++ {
+				expr := genExpr()
+				ctxE := ctxExprs[r.Intn(len(ctxExprs))]
+				compiled, cerr := xpath.Compile(expr)
+				if cerr != nil {
+					continue
+				}
+				var left, right []string
+				pv, _ := guarded(0, func() {
+					ictx, _ := idr.MatchAll(idrDoc, ctxE)
+					xctx := xmlquery.Find(xdoc, ctxE)
+					if len(ictx) == 0 || len(xctx) == 0 {
+						if len(ictx) != len(xctx) {
+							left = []string{"CONTEXT-DIFFERS"}
+						}
+						return
+					}
+					// the string entry points of the package (with and without its expression cache) must select what the
+					// compiled expression selects
+					sigIdr := func(nd *idr.Node) string {
+						depth, prev := 0, 0
+						for p := nd; p.Parent != nil; p = p.Parent {
+							depth++
+						}
+						for p := nd.PrevSibling; p != nil; p = p.PrevSibling {
+							if p.Type != idr.AttributeNode {
+								prev++
+							}
+						}
+						name := nd.Data
+						if nd.Type == idr.TextNode {
+							name = "#text"
+						}
+						if nd.Type == idr.AttributeNode {
+							name, prev = "@"+nd.Data, 0
+						}
+						return sigOf(name, nd.InnerText(), depth, prev)
+					}
+					var viaString [2][]string
+					for k, flags := range [][]uint{nil, {idr.DisableXPathCache}} {
+						ns, err := idr.MatchAll(ictx[0], expr, flags...)
+						if err != nil {
+							viaString[k] = []string{"ERROR " + err.Error()}
+							continue
+						}
+						for _, nd := range ns {
+							viaString[k] = append(viaString[k], sigIdr(nd))
+						}
+					}
+					defer func() {
+						if fmt.Sprint(viaString[0]) != fmt.Sprint(left) || fmt.Sprint(viaString[1]) != fmt.Sprint(left) {
+							left = append(left, fmt.Sprintf("ENTRY-POINTS-DIFFER MatchAll(cached)=%v MatchAll(uncached)=%v", viaString[0], viaString[1]))
+						}
+					}()
+					it := idr.QueryIter(ictx[0], compiled)
+					for it.MoveNext() {
+						nd := it.Current().(interface{ Current() *idr.Node }).Current()
+						depth, prev := 0, 0
+						for p := nd; p.Parent != nil; p = p.Parent {
+							depth++
+						}
+						for p := nd.PrevSibling; p != nil; p = p.PrevSibling {
+							if p.Type != idr.AttributeNode {
+								prev++
+							}
+						}
+						name := nd.Data
+						if nd.Type == idr.TextNode {
+							name = "#text"
+						}
+						if nd.Type == idr.AttributeNode {
+							name, prev = "@"+nd.Data, 0
+						}
+						left = append(left, sigOf(name, nd.InnerText(), depth, prev))
+					}
+					xt := compiled.Select(xmlquery.CreateXPathNavigator(xctx[0]))
+					for xt.MoveNext() {
+						xn := xt.Current().(*xmlquery.NodeNavigator)
+						nd := xn.Current()
+						if xn.NodeType() == xpath.AttributeNode {
+							depth := 1
+							for p := nd; p.Parent != nil; p = p.Parent {
+								depth++
+							}
+							right = append(right, sigOf("@"+xn.LocalName(), xn.Value(), depth, 0))
+							continue
+						}
+						depth, prev := 0, 0
+						for p := nd; p.Parent != nil; p = p.Parent {
+							depth++
+						}
+						for p := nd.PrevSibling; p != nil; p = p.PrevSibling {
+							if p.Type != xmlquery.DeclarationNode {
+								prev++
+							}
+						}
+						name := nd.Data
+						if nd.Type == xmlquery.TextNode || nd.Type == xmlquery.CharDataNode {
+							name = "#text"
+						}
+						right = append(right, sigOf(name, nd.InnerText(), depth, prev))
+					}
+				})
+				if pv != "" {
+					left = append(left, "PANIC "+pv)
+				}
+				if left == nil {
+					left = []string{}
+				}
+				if right == nil {
+					right = []string{}
+				}
+				events = append(events, M{"ev": "equal", "tr": len(events) + 1, "x": left, "y": right, "xml": text, "expr": expr, "ctx": ctxE})
+				sum.Traces++
+				sum.eval(len(right) > 0 && strings.Count(expr, "::") >= 2, M{"x": text, "e": expr, "c": ctxE})
+			}
+	}
 	for di := 0; di < n; di++ {
 		text := `<root xmlns:p="urn:p">` + gen(0) + gen(0) + `</root>`
 		sr, e := idr.NewXMLStreamReader(strings.NewReader(text), "/*")
@@ -362,126 +482,44 @@ func c11Drive(args []string) int {
 			fmt.Println("error:", e)
 			return 3
 		}
-		// context nodes: the document and a few inner elements (selected by the same expression on both sides)
-		ctxExprs := []string{".", "/root/*[1]", "/root/*[2]", "//b[1]", "//a[last()]"}
-		for xi := 0; xi < 12; xi++ {
-			expr := genExpr()
-			ctxE := ctxExprs[r.Intn(len(ctxExprs))]
-			compiled, cerr := xpath.Compile(expr)
-			if cerr != nil {
-				continue
-			}
-			var left, right []string
-			pv, _ := guarded(0, func() {
-				ictx, _ := idr.MatchAll(idrDoc, ctxE)
-				xctx := xmlquery.Find(xdoc, ctxE)
-				if len(ictx) == 0 || len(xctx) == 0 {
-					if len(ictx) != len(xctx) {
-						left = []string{"CONTEXT-DIFFERS"}
-					}
-					return
-				}
-				// the string entry points of the package (with and without its expression cache) must select what the
-				// compiled expression selects
-				sigIdr := func(nd *idr.Node) string {
-					depth, prev := 0, 0
-					for p := nd; p.Parent != nil; p = p.Parent {
-						depth++
-					}
-					for p := nd.PrevSibling; p != nil; p = p.PrevSibling {
-						if p.Type != idr.AttributeNode {
-							prev++
-						}
-					}
-					name := nd.Data
-					if nd.Type == idr.TextNode {
-						name = "#text"
-					}
-					if nd.Type == idr.AttributeNode {
-						name, prev = "@"+nd.Data, 0
-					}
-					return sigOf(name, nd.InnerText(), depth, prev)
-				}
-				var viaString [2][]string
-				for k, flags := range [][]uint{nil, {idr.DisableXPathCache}} {
-					ns, err := idr.MatchAll(ictx[0], expr, flags...)
-					if err != nil {
-						viaString[k] = []string{"ERROR " + err.Error()}
-						continue
-					}
-					for _, nd := range ns {
-						viaString[k] = append(viaString[k], sigIdr(nd))
-					}
-				}
-				defer func() {
-					if fmt.Sprint(viaString[0]) != fmt.Sprint(left) || fmt.Sprint(viaString[1]) != fmt.Sprint(left) {
-						left = append(left, fmt.Sprintf("ENTRY-POINTS-DIFFER MatchAll(cached)=%v MatchAll(uncached)=%v", viaString[0], viaString[1]))
-					}
-				}()
-				it := idr.QueryIter(ictx[0], compiled)
-				for it.MoveNext() {
-					nd := it.Current().(interface{ Current() *idr.Node }).Current()
-					depth, prev := 0, 0
-					for p := nd; p.Parent != nil; p = p.Parent {
-						depth++
-					}
-					for p := nd.PrevSibling; p != nil; p = p.PrevSibling {
-						if p.Type != idr.AttributeNode {
-							prev++
-						}
-					}
-					name := nd.Data
-					if nd.Type == idr.TextNode {
-						name = "#text"
-					}
-					if nd.Type == idr.AttributeNode {
-						name, prev = "@"+nd.Data, 0
-					}
-					left = append(left, sigOf(name, nd.InnerText(), depth, prev))
-				}
-				xt := compiled.Select(xmlquery.CreateXPathNavigator(xctx[0]))
-				for xt.MoveNext() {
-					xn := xt.Current().(*xmlquery.NodeNavigator)
-					nd := xn.Current()
-					if xn.NodeType() == xpath.AttributeNode {
-						depth := 1
-						for p := nd; p.Parent != nil; p = p.Parent {
-							depth++
-						}
-						right = append(right, sigOf("@"+xn.LocalName(), xn.Value(), depth, 0))
-						continue
-					}
-					depth, prev := 0, 0
-					for p := nd; p.Parent != nil; p = p.Parent {
-						depth++
-					}
-					for p := nd.PrevSibling; p != nil; p = p.PrevSibling {
-						if p.Type != xmlquery.DeclarationNode {
-							prev++
-						}
-					}
-					name := nd.Data
-					if nd.Type == xmlquery.TextNode || nd.Type == xmlquery.CharDataNode {
-						name = "#text"
-					}
-					right = append(right, sigOf(name, nd.InnerText(), depth, prev))
-				}
-			})
-			if pv != "" {
-				left = append(left, "PANIC "+pv)
-			}
-			if left == nil {
-				left = []string{}
-			}
-			if right == nil {
-				right = []string{}
-			}
-			events = append(events, M{"ev": "equal", "tr": len(events) + 1, "x": left, "y": right, "xml": text, "expr": expr, "ctx": ctxE})
-			sum.Traces++
-			sum.eval(len(right) > 0 && strings.Count(expr, "::") >= 2, M{"x": text, "e": expr, "c": ctxE})
-		}
+		compareDoc(idrDoc, xdoc, text, 12)
 		if di == 0 {
 			sum.sample(M{"xml": text, "expr": genExpr()})
+		}
+	}
+	// the tree as a schema's xpaths meet it: streamed record by record (target /root/*), every record possibly with
+	// namespace declarations of its own; when record k is delivered the tree is the root with record k alone, and the
+	// reference is the DOM of exactly that document
+	for di := 0; di < n/2; di++ {
+		var recs []string
+		for k := 0; k < 3; k++ {
+			decl := []string{"", "", ` xmlns:p="urn:other"`, ` xmlns:q="urn:q"`}[r.Intn(4)]
+			nm := []string{"rec", "p:rec"}[r.Intn(2)]
+			recs = append(recs, "<"+nm+decl+">"+gen(1)+gen(1)+"</"+nm+">")
+		}
+		text := `<root xmlns:p="urn:p">` + strings.Join(recs, "") + `</root>`
+		sr, e := idr.NewXMLStreamReader(strings.NewReader(text), "/root/*")
+		if e != nil {
+			continue
+		}
+		for k := 0; k < len(recs); k++ {
+			rec, e := sr.Read()
+			if e != nil {
+				fmt.Println("error: generated document does not stream:", text, e)
+				return 3
+			}
+			idrDoc := rec
+			for idrDoc.Parent != nil {
+				idrDoc = idrDoc.Parent
+			}
+			one := `<root xmlns:p="urn:p">` + recs[k] + `</root>`
+			xdoc, e := parseRefDOM(one)
+			if e != nil {
+				fmt.Println("error:", e)
+				return 3
+			}
+			compareDoc(idrDoc, xdoc, fmt.Sprintf("%s (record %d of the stream %s)", one, k+1, text), 6)
+			sr.Release(rec)
 		}
 	}
 	mustWriteNDJSON(args[0], events)
